@@ -255,6 +255,58 @@ theorem C08_host_no_route_no_interface (fuel : Nat) (st : St) (n : Nat) (nd : No
     resolveOut (fuel + 1) st n dst = (st, none) := by
   simp only [resolveOut, hn, hoff, hk, hg]
 
+/-! ### routers forward along the route `find_best_route` selects -/
+
+/-- A router that holds a unicast frame for an off-link destination (no cache entry, no interface subnet contains it)
+forwards it to the cached MAC of the NEXT HOP OF THE ROUTE `find_best_route` RETURNS (hence, by `C08_best_longest /
+_cheapest / _first_among_equals`, the longest-prefix, cheapest, earliest entry), out of the interface that entry names,
+with the TTL lowered by one, source MAC rewritten, IP addresses untouched. -/
+theorem C08_router_uses_best_route (fuel : Nat) (st : St) (n i : Nat) (f : Frame) (nd : Node) (r : Route.Route)
+    (idx : Nat) (e : ArpEntry) (oif : Iface)
+    (hn : st.node? n = some nd) (hk : nd.kind = .router) (hb : (f.dstMac == bcastMac) = false)
+    (hmiss : nd.arpGet f.dstIp = none) (hoff : firstIn nd.ifaces f.dstIp 0 = none)
+    (hbest : findBestRoute nd.routes f.dstIp = .route idx r)
+    (he : nd.arpGet r.nextHop = some e) (hif : st.iface? n e.ifc = some oif) (hen : oif.enabled = true)
+    (hnot : oif.inNet f.dstIp = false) (httl : ¬ f.dec.ttl < 1) :
+    routerProcess (fuel + 3) st n i f =
+      sendFrame (fuel + 2) (st.emit (.hop n f.id f.ttl)) n e.ifc (f.dec.stamp oif.mac e.mac) := by
+  have hreq : ∀ k, sendArpReq (k + 1) st n r.nextHop = st := by
+    intro k; simp only [sendArpReq, hn, he, Option.isSome_some, if_true]
+  simp only [routerProcess, hb, Bool.false_eq_true, if_false, arpIfc, arpMac, hn, hmiss, hk, hoff, routerArpNext,
+    hbest, hreq, he, hif, hen, hnot, httl, Route.Result.nextHop?, beq_self_eq_true, if_true, Bool.not_false, Bool.not_true,
+    Option.isSome_none, Bool.and_false]
+
+/-- … and along the default route exactly when `find_best_route` answers with it (last resort, `C08_default_iff`). -/
+theorem C08_router_uses_default_route (fuel : Nat) (st : St) (n i : Nat) (f : Frame) (nd : Node) (nh : Ip)
+    (e : ArpEntry) (oif : Iface)
+    (hn : st.node? n = some nd) (hk : nd.kind = .router) (hb : (f.dstMac == bcastMac) = false)
+    (hmiss : nd.arpGet f.dstIp = none) (hoff : firstIn nd.ifaces f.dstIp 0 = none)
+    (hbest : findBestRoute nd.routes f.dstIp = .default nh)
+    (he : nd.arpGet nh = some e) (hif : st.iface? n e.ifc = some oif) (hen : oif.enabled = true)
+    (hnot : oif.inNet f.dstIp = false) (httl : ¬ f.dec.ttl < 1) :
+    routerProcess (fuel + 3) st n i f =
+      sendFrame (fuel + 2) (st.emit (.hop n f.id f.ttl)) n e.ifc (f.dec.stamp oif.mac e.mac) := by
+  have hreq : ∀ k, sendArpReq (k + 1) st n nh = st := by
+    intro k; simp only [sendArpReq, hn, he, Option.isSome_some, if_true]
+  simp only [routerProcess, hb, Bool.false_eq_true, if_false, arpIfc, arpMac, hn, hmiss, hk, hoff, routerArpNext,
+    hbest, hreq, he, hif, hen, hnot, httl, Route.Result.nextHop?, beq_self_eq_true, if_true, Bool.not_false, Bool.not_true,
+    Option.isSome_none, Bool.and_false]
+
+/-- … and drops it, touching nothing, when there is neither a matching route nor a default route. -/
+theorem C08_router_no_route_drops (fuel : Nat) (st : St) (n i : Nat) (f : Frame) (nd : Node)
+    (hn : st.node? n = some nd) (hk : nd.kind = .router) (hb : (f.dstMac == bcastMac) = false)
+    (hmiss : nd.arpGet f.dstIp = none) (hoff : firstIn nd.ifaces f.dstIp 0 = none)
+    (hbest : findBestRoute nd.routes f.dstIp = .noRoute) :
+    routerProcess (fuel + 2) st n i f = (st, f) := by
+  simp only [routerProcess, hb, Bool.false_eq_true, if_false, arpIfc, arpMac, hn, hmiss, hk, hoff, routerArpNext,
+    hbest, beq_self_eq_true, if_true, Bool.not_false, Option.isSome_none, Bool.and_false]
+
+/-- with the repaired `process_frame`, a layer-2 broadcast that is not for one of the router's own addresses is never
+forwarded and triggers no ARP traffic (this is what ends the mutual ARP recursion of finding F-33). -/
+theorem C08_router_never_forwards_broadcast (fuel : Nat) (st : St) (n i : Nat) (f : Frame) (hb : f.dstMac = bcastMac) :
+    routerProcess (fuel + 1) st n i f = (st, f) := by
+  simp only [routerProcess, hb, beq_self_eq_true, if_true]
+
 /-! ### addressee: hosts accept unicast frames by MAC alone, so correctness rests on how frames are addressed -/
 
 /-- MAC addresses are unique over all interfaces. -/
@@ -355,6 +407,20 @@ example : UniqueMacs exSt := by
   | _, m + 2, _, _ => simp [St.iface?, exSt] at hb
 example : WellAddressed exSt { id := 0, srcMac := 1, dstMac := 2, srcIp := ipA, dstIp := ipB, ttl := 64, pl := .echoReq 3 } :=
   ⟨1, 0, _, exB, rfl, rfl, rfl, Or.inl rfl⟩
+def exRoute : Route.Route := { addr := 0xAC100000#32, mask := 0xFFFF0000#32, nextHop := 0x0A000002#32, metric := 0 }
+def exR : Node :=
+  { kind := .router,
+    ifaces := [{ mac := 10, ip := ipGw, plen := 24, enabled := true }, { mac := 11, ip := 0x0A000001#32, plen := 30, enabled := true }],
+    routes := { routes := [exRoute], default := some 0x0A000002#32 },
+    arp := [{ ip := 0x0A000002#32, mac := 20, ifc := 1 }] }
+/-- hypotheses of `C08_router_uses_best_route` (destination 172.16.0.5) and of `C08_router_uses_default_route`
+(destination 8.8.8.8) hold for a concrete router. -/
+example : exR.arpGet 0xAC100005#32 = none ∧ firstIn exR.ifaces 0xAC100005#32 0 = none ∧
+    findBestRoute exR.routes 0xAC100005#32 = .route 0 exRoute ∧
+    exR.arpGet exRoute.nextHop = some { ip := 0x0A000002#32, mac := 20, ifc := 1 } ∧
+    (exR.ifaces[1]?.map (fun o => o.enabled && !o.inNet 0xAC100005#32)) = some true ∧
+    findBestRoute exR.routes ipFar = .default 0x0A000002#32 ∧
+    findBestRoute { exR.routes with default := none } ipFar = .noRoute := by decide
 example : hostArpNext exA ipFar false false = .go ipFar true false ∧ hostArpNext exA ipFar true false = .go ipGw true true := by
   decide
 
